@@ -158,8 +158,7 @@ def sense_tests(ctx, body, src_pred=None):
                 if o['k'] == 'const':
                     m = re.fullmatch(r'(-?\d+)_i32', _cv(o) or '')
                     return names.get(int(m.group(1))) if m else None
-                vs = {m.group(1) for c in s_.consts for m in [re.search(r'Sense::(\w+)', c)] if m}
-                return vs.pop() if len(vs) == 1 and all(a == 'tuple' for a, f in s_.fields) and not s_.params else None
+                return sense_number_variant(ctx, body, o, s_)
             for (o, s_), (o2, s2) in ((list(zip(rv['ops'], sl))), list(zip(rv['ops'], sl))[::-1]):
                 v = variant_of(o2, s2)
                 if v is None or not any(f == 'sense' for a, f in s_.fields): continue
@@ -180,6 +179,18 @@ def sense_tests(ctx, body, src_pred=None):
                         others = [t2 for v2, t2 in sw['ts'] if v2 != val] + [sw['else']]
                         out.append((b3, names[val], [t], [x for x in others if not body.is_panic_block(x)], op, b3))
     return out
+
+
+def sense_number_variant(ctx, body, o, s_=None):
+    """variant whose number an i32 operand is:  `Sense::Minimize as i32` (the variant's constant in the slice),
+    `i32::from(Sense::Minimize)` / `Sense::Minimize.into()` (the variant itself under transparent conversions); None otherwise"""
+    s_ = s_ if s_ is not None else ctx.S.slice_operand(body, o)
+    if s_.params or not all(a == 'tuple' for a, f in s_.fields): return None
+    vs = {m.group(1) for c in s_.consts for m in [re.search(r'Sense::(\w+)', c)] if m}
+    e = T.expr(body, o, depth=10)
+    if not [x for x in T.expr_calls(e) if not T.TRANSPARENT.search(T.strip_generics_tail(x[2]))]:
+        vs |= {m.group(1) for x in T.expr_walk(e) if x[0] == 'agg' for m in [re.search(r'Sense::(\w+)$', x[1])] if m}
+    return vs.pop() if len(vs) == 1 else None
 
 
 def regions(body, t):
@@ -341,7 +352,8 @@ def min_rules(ctx):
         # the value written is Minimize: `Sense::Minimize as i32` (a constant in the slice) or the variant itself handed to a setter
         s = ctx.S.slice_operand(b, op) if op is not None else None
         v = enum_variant_of_operand(ctx, b, op) if op is not None else None
-        is_min_val = s is not None and ((s.has_const(r'Sense::Minimize') and not s.has_const(r'Sense::Maximize')) or bool(v and v.endswith('Sense::Minimize')))
+        is_min_val = s is not None and ((s.has_const(r'Sense::Minimize') and not s.has_const(r'Sense::Maximize')) or bool(v and v.endswith('Sense::Minimize'))
+                                        or sense_number_variant(ctx, b, op, s) == 'Minimize')
         oks = oks and bi in maxr and is_min_val
     ctx.check(oks and every_other_path_passes([w[0] for w in sw]), R + '/sense-becomes-minimize', 'T-CONST', b.name, 'sense is not set to Minimize on every path of a maximisation problem', b.site())
     oko = bool(ow); neg_impls = set()
@@ -543,14 +555,7 @@ def comparator_under(ctx, b, sc, cb, S, parent_env):
     """what the comparator closure `cb` of selection call `sc` returns when the sense is S: set of 'natural' / 'reversed' / ...
     parent_env: values the closure's captures have when `sc` is reached (function values, flags computed from the sense)."""
     a_st, a_call, _ = sense_assumptions(ctx, cb, S)
-    # reads of captured variables whose value is known
-    for bi, st in cb.stmts():
-        if st['dst']['p'] or st['rv']['k'] not in ('use',) or st['rv']['ops'][0]['k'] not in ('copy', 'move'): continue
-        e = T.expr(cb, st['rv']['ops'][0], depth=6)
-        if e[0] == 'place' and e[1] == 1 and len(e[2]) == 1 and e[2][0][0] == 'closure' and e[2][0][1].isdigit():
-            v = parent_env.get(int(e[2][0][1]), 'unknown')
-            deref = '*' in st['rv']['ops'][0]['pl']['p'] and not cb.locals[st['dst']['l']].strip().startswith('&')
-            if v != 'unknown' and (deref or not cb.locals[st['dst']['l']].strip().startswith('&')): a_st.setdefault(id(st), v)
+    capture_seeds(cb, parent_env, a_st)
     indirect = {c.bb: fn_pointer_callee(cb, c) for c in cb.calls if c.name.startswith('<indirect')}
     seen = {}
     r = reach_x(cb, [0], assume_stmt=a_st, assume_call=a_call, watch={bb: l for bb, l in indirect.items() if l is not None}, seen_vals=seen)
@@ -574,6 +579,68 @@ def comparator_under(ctx, b, sc, cb, S, parent_env):
         else: continue
         out.add(ordering_expr(cb, e) or 'unrecognised-ordering')
     return out
+
+
+def capture_seeds(cb, parent_env, a_st):
+    """reads of captured variables whose value is known in the parent: assumed results for reach_x"""
+    for bi, st in cb.stmts():
+        if st['dst']['p'] or st['rv']['k'] not in ('use',) or st['rv']['ops'][0]['k'] not in ('copy', 'move'): continue
+        e = T.expr(cb, st['rv']['ops'][0], depth=6)
+        if e[0] == 'place' and e[1] == 1 and len(e[2]) == 1 and e[2][0][0] == 'closure' and e[2][0][1].isdigit():
+            v = parent_env.get(int(e[2][0][1]), 'unknown')
+            if v != 'unknown' and not cb.locals[st['dst']['l']].strip().startswith('&'): a_st.setdefault(id(st), v)
+
+
+def reducer_under(ctx, b, cb, S, parent_env):
+    """`it.reduce(|incumbent, challenger| if <challenger better> { challenger } else { incumbent })` (incumbent = _2, challenger = _3):
+    which objective the reduction prefers when the sense is S.  One comparison of the two `.1` must be reachable; its Ordering test
+    decides which of the two arguments is returned; `returned challenger  <=>  challenger.1 < incumbent.1` is `smaller`."""
+    a_st, a_call, _ = sense_assumptions(ctx, cb, S)
+    capture_seeds(cb, parent_env, a_st)
+    r = reach_x(cb, [0], assume_stmt=a_st, assume_call=a_call)
+    def who(op):
+        e = T.expr(cb, op, depth=12)
+        pl = [y for y in T.expr_walk(e) if y[0] == 'place' and y[1] in (2, 3)]
+        opaque = [y for y in T.expr_calls(e) if not T.TRANSPARENT.search(T.strip_generics_tail(y[2]))]
+        if len({y[1] for y in pl}) != 1 or opaque: return (None, ())
+        return ('inc' if pl[0][1] == 2 else 'cand', tuple(f for a, f in T.expr_fields(e) if a == 'tuple'))
+    tests = []       # (bb of the bool-valued test, sides, relation that holds between them when the test is true)
+    for c in cb.calls:
+        if c.bb in r and c.item in CMP_ITEMS and len(c.args) == 2:
+            x, y = who(c.args[0]), who(c.args[1])
+            for kind, bi, u in [z for al in T.copies_of(cb, c.dst['l']) for z in cb.uses.get(al, ())]:
+                if kind != 'call': continue
+                if u.item in ORD_TESTS and 'Ordering' in u.name: tests.append((u.bb, x, y, ORD_TESTS[u.item]))
+                elif u.item in ('eq', 'ne') and 'PartialEq' in (u.trait or '') and 'Ordering' in (u.self_ty or ''):
+                    vs = [enum_variant_of_operand(ctx, cb, a) for a in u.args]
+                    v = [z.split('::')[-1] for z in vs if z and 'Ordering::' in z]
+                    rel = {('eq', 'Less'): '<', ('eq', 'Greater'): '>', ('ne', 'Greater'): '<', ('ne', 'Less'): '>'}.get((u.item, v[0])) if v else None
+                    if rel: tests.append((u.bb, x, y, rel))
+    for bi, st in cb.stmts():
+        rv = st['rv']
+        if bi in r and rv['k'] == 'bin' and rv['op'] in BIN_TESTS and rv.get('ty') == 'f64' and not st['dst']['p']:
+            tests.append((('stmt', id(st)), who(rv['ops'][0]), who(rv['ops'][1]), BIN_TESTS[rv['op']]))
+    tests = sorted(set(tests), key=str)
+    if len({t[0] for t in tests}) != 1 or len(tests) != 1: return {'unrecognised-reduction:%d comparisons reachable' % len(tests)}
+    site, x, y, rel = tests[0]
+    if {x[0], y[0]} != {'inc', 'cand'} or x[1] != ('1',) or y[1] != ('1',): return {'not-the-objective-values'}
+    returned = {}
+    for val in (True, False):
+        st2 = dict(a_st); call2 = dict(a_call)
+        if isinstance(site, tuple): st2[site[1]] = val
+        else: call2[site] = val
+        r2 = reach_x(cb, [0], assume_stmt=st2, assume_call=call2)
+        outs = set()
+        for k, bi, d in cb.defs_of(0):
+            if bi not in r2: continue
+            if k == 'stmt' and not d['dst']['p'] and d['rv']['k'] == 'use':
+                w = who(d['rv']['ops'][0]); outs.add(w[0] if w[1] == () else None)
+            else: outs.add(None)
+        returned[val] = outs.pop() if len(outs) == 1 else None
+    if {returned[True], returned[False]} != {'inc', 'cand'}: return {'unrecognised-reduction:the closure does not return one of its two arguments per outcome'}
+    cand_smaller = (rel == '<') == (x[0] == 'cand')            # what the relation says when the test is true
+    replace_when_true = returned[True] == 'cand'
+    return {'smaller' if cand_smaller == replace_when_true else 'larger'}
 
 
 def selection_by_call(ctx, R, b, sel):
@@ -612,8 +679,10 @@ def selection_by_call(ctx, R, b, sel):
             envs = seen.get(sc.bb) or {tuple('unknown' for _ in caps.get(sc.bb, ()))}
             for vals in envs:
                 env = {k: v for k, v in enumerate(vals) if v != 'unknown'}
-                for o in comparator_under(ctx, b, sc, closures[sc.bb], S, env):
-                    verdicts.add(sel_of.get(o, o))
+                if sc.item == 'reduce': verdicts |= reducer_under(ctx, b, closures[sc.bb], S, env)
+                else:
+                    for o in comparator_under(ctx, b, sc, closures[sc.bb], S, env):
+                        verdicts.add(sel_of.get(o, o))
         per[S] = verdicts.pop() if len(verdicts) == 1 else ('conflict:%s' % sorted(verdicts) if verdicts else 'no-selection-reached')
     rows = {'min': per['Minimize'], 'max': per['Maximize'] if per['Maximize'] == per['Unspecified'] else 'Maximize:%s/Unspecified:%s' % (per['Maximize'], per['Unspecified'])}
     # the sense compared is the sample set's own
@@ -718,7 +787,7 @@ def best_rules(ctx):
     rs = ctx.S.backslice(b, [0])
     loops = T.for_loops(b)
     # ---- the selection: a min_by / max_by call, or a loop with an incumbent
-    sel = [c for c in b.calls if c.item in ('min_by', 'max_by') and 'Iterator' in (c.trait or '') and c in rs.call_objs]
+    sel = [c for c in b.calls if c.item in ('min_by', 'max_by', 'reduce') and 'Iterator' in (c.trait or '') and c in rs.call_objs]
     incs = [(lo, l, nones, somes) for lo in loops for l, nones, somes in incumbents(b, lo) if l in rs.locals]
     ctx.check(bool(sel) != bool(incs) and len(incs) <= 1, R + '/selection', 'T-BRANCHFX', b.name,
               'no selection of the best candidate recognised (min_by / max_by call, or loop keeping an incumbent): %d calls, %d loops' % (len(sel), len(incs)), b.site())
@@ -803,7 +872,7 @@ def best_rules(ctx):
             id_loops.append(lo)
             loop_must(ctx, R + '/every-candidate-looked-up', b, lo, lambda x, g=g: x is g, 'objectives.get(id)')
         errflow_ps(ctx, R + '/missing-objective-is-error', b, [g], 'missing objective')
-    tf = [c for c in b.calls if c.item == 'try_from' and 'Sense' in c.name]
+    tf = [c for c in b.calls if c.item in ('try_from', 'try_into') and 'Sense' in c.name]
     errflow_ps(ctx, R + '/invalid-sense-is-error', b, tf, 'invalid sense')
     oc = [c for c in b.calls if c.item == 'objectives']
     errflow_ps(ctx, R + '/missing-objectives-is-error', b, oc, 'missing objectives')
@@ -1058,7 +1127,8 @@ def legacy_rules(ctx):
 RELIES_ON = {'C07': ['C07.history/field/ommx.v1.SampleSet#', 'C07.history/name/ommx.v1.SampleSet', 'C07.rust/field/ommx.v1.SampleSet', 'C07.python/field/ommx.v1.SampleSet',
                      'C07.history/name/ommx.v1.SampledValues', 'C07.history/name/ommx.v1.SampledConstraint', 'C07.history/name/ommx.v1.SampledDecisionVariable'],
              # objectives and feasibility flags are read through the compressed-value lookup (seed C15-6 broke it)
-             'C06': ['C06.compress'],
+             # the Solution returned by best_feasible* takes its two flags through the accessors with the legacy fallback (seed C15-13 read the raw field)
+             'C06': ['C06.compress', 'C06.get/flags'],
              # the negation of the objective goes through the scaling kernels (`f * -1.0`): Neg / Mul<f64> of Function and of the three
              # polynomial types (seed C15-11 broke Linear * f64; the rule for it belongs to C02's kernel family)
              'C02': ['C02.kernel/Linear*f64', 'C02.kernel/Quadratic*f64', 'C02.kernel/Polynomial*f64', 'C02.branches/Quadratic_Mul_f64']
